@@ -28,3 +28,9 @@ pub(crate) fn fill_abstract(f: &mut Frame, channels: usize, block: usize, start:
 pub(crate) fn value_at(c: usize, p: u64) -> i32 {
     (p as i32) * 8 + c as i32
 }
+
+/// what Frame::fill_from_samples does to the shape (the de-interleaving itself is out of CBMC's reach)
+pub(crate) fn set_interleaved_len(f: &mut Frame, total_samples: usize) {
+    f.channel_len = if f.channels == 0 { 0 } else { total_samples / f.channels };
+    f.samples.resize(total_samples, 0);
+}
